@@ -131,6 +131,7 @@ fn span_step(with_event: bool) {
         *ctxt.cur.borrow_mut() = ArrProps { a: None, b: None, trace: TraceId::from_u128(t), span: SpanId::from_u64(sp),
             parent: if has_parent { SpanId::from_u64(pp) } else { None } };
     }
+    // (an ambient trace id WITHOUT a span id is decided by the kernel c04_q_new_child_from_any_ambient)
     let before = ctxt.view();
     let (amb_trace, amb_span) = if has { (Val::Trace(t), Val::Span(sp)) } else { (Val::None, Val::None) };
     let verdict: bool = kani::any();
@@ -194,6 +195,32 @@ pub fn c04_q_span_ctxt_child_ids() {
     let zero = CountRng::new(0);
     assert!(SpanId::random(&zero).is_none());
     kani::cover!(start == 1, "smallest seed");
+}
+
+/// `new_child` from ANY ambient ids (each of trace id / span id / parent id present or absent, any value):
+/// the child keeps the ambient trace id whenever there is one (also when no span id came with it - incoming
+/// ids placed in the context need not include a span), draws a fresh one otherwise; its parent is the
+/// ambient span id; its own span id is freshly drawn.
+#[kani::proof]
+#[kani::unwind(4)]
+pub fn c04_q_new_child_from_any_ambient() {
+    let t: u128 = kani::any();
+    let sp: u64 = kani::any();
+    let pp: u64 = kani::any();
+    let amb = SpanCtxt::new(TraceId::from_u128(t), SpanId::from_u64(pp), SpanId::from_u64(sp));
+    let rng = CountRng::new(100);
+    let child = amb.new_child(&rng);
+    if t != 0 {
+        assert!(child.trace_id().map(|x| x.to_u128()) == Some(t), "the trace id of the incoming context is kept");
+        assert!(child.span_id().map(|x| x.to_u64()) == Some(100));
+    } else {
+        assert!(child.trace_id().map(|x| x.to_u128()) == Some(100), "a fresh trace id only when none is in force");
+        assert!(child.span_id().map(|x| x.to_u64()) == Some(101));
+    }
+    assert!(child.span_parent().map(|x| x.to_u64()) == if sp != 0 { Some(sp) } else { None }, "parent = the enclosing span, if any");
+    kani::cover!(t != 0 && sp == 0, "trace id without a span id");
+    kani::cover!(t == 0 && sp == 0, "nothing ambient");
+    kani::cover!(t != 0 && sp != 0, "full ambient ids");
 }
 
 #[kani::proof]
